@@ -25,6 +25,7 @@ CONSTANTS
   AdvMsgs = {}
   MaxAdv = 0
   Bridgers = {}
+  SplitFlush = FALSE
   MaxNow = 0
   MaxHandles = 2
   MaxCtr = 2
